@@ -704,6 +704,14 @@ func (dht *IpfsDHT) peerFound(p peer.ID) {
 				return
 			}
 
+			// The peer may have stopped advertising the DHT protocol (or may no
+			// longer pass the routing table filter) while the probe was in
+			// flight. It was not a member yet, so that report removed nothing;
+			// check again before admitting it.
+			if ok, err := dht.validRTPeer(p); err != nil || !ok {
+				return
+			}
+
 			// if the FIND_NODE succeeded, the peer is considered as valid
 			dht.validPeerFound(p)
 		}()
